@@ -11,8 +11,10 @@ LEVEL = ('typestate abstract interpretation of the solver life-cycle (7-variant 
          'creating API functions are inert while an inconsistency is recorded (T10) and add_clause / '
          "add_propagator leave at once in every inconsistent state, with the guards' truth tables "
          'interpreted from MIR (T11). The three solver-state kinds are mutually exclusive (T12) and '
-         'contains_domain_id / stored-solution extent are exact (T13). Does not decide that later '
-         'answers are correct, nor the absence of data-dependent panics')
+         'contains_domain_id / stored-solution extent are exact (T13). SolutionIterator reports '
+         'Unsatisfiable only before and Finished only after it handed out a solution (T14 PROTOCOL, '
+         'finite abstraction of its flag fields). Does not decide that later answers are correct, nor '
+         'the absence of data-dependent panics')
 TECHNIQUE = "static analysis: typestate abstract interpretation over rustc MIR (most general client)"
 NOTE = ("trusted: rustc MIR/type resolution; the trail level is abstracted to {0,+} with "
         "Assignments::{increase_decision_level,synchronise,get_decision_level} and backtrack as "
